@@ -737,6 +737,83 @@ func TestC14Config(t *testing.T) {
 				}
 			}
 			o.Case("config_jitter_ok", []string{c.enc(), kit.I(now), kit.List(obs...)}, "T", "config", "jitter")
+			// gaussian stages: what the stage's rate function answers is what the gaussian trigger built
+			// directly from the stage's own resolved options (the stage's value, else the default
+			// section's) answers - whatever other stages the file holds
+			// (the profile carries fractions from call to call: both sides start fresh - the file is read
+			// once more for this - and are asked the same instants in the same order)
+			first := len(c.stages) - len(rs.Stages)
+			fresh, ferr := file.ParseConfigFile([]byte(y), time.Unix(0, now))
+			if ferr != nil || len(fresh.Stages) != len(rs.Stages) {
+				first = -1
+			}
+			for k := range rs.Stages {
+				if first < 0 {
+					break
+				}
+				s := fresh.Stages[k]
+				if s.UsersConcurrency != 0 || s.Rate == nil {
+					continue
+				}
+				ast := c.stages[first+k]
+				str := func(a, b *string) string {
+					if a != nil {
+						return *a
+					}
+					if b != nil {
+						return *b
+					}
+					return ""
+				}
+				if str(ast.mode, c.def.mode) != "gaussian" || str(ast.dist, c.def.dist) != "none" {
+					continue
+				}
+				i64 := func(a, b *int64) (int64, bool) {
+					if a != nil {
+						return *a, true
+					}
+					if b != nil {
+						return *b, true
+					}
+					return 0, false
+				}
+				f64 := func(a, b *float64) (float64, bool) {
+					if a != nil {
+						return *a, true
+					}
+					if b != nil {
+						return *b, true
+					}
+					return 0, false
+				}
+				vol, ok1 := f64(ast.volume, c.def.volume)
+				jit, ok2 := f64(ast.jitter, c.def.jitter)
+				rep, ok3 := i64(ast.repeat, c.def.repeat)
+				frq, ok4 := i64(ast.freq, c.def.freq)
+				pk, ok5 := i64(ast.peak, c.def.peak)
+				sd, ok6 := i64(ast.stddev, c.def.stddev)
+				if !(ok1 && ok2 && ok3 && ok4 && ok5 && ok6) || jit != 0 {
+					continue
+				}
+				want, e := gaussian.CalculateGaussianRate(vol, 0, time.Duration(rep), time.Duration(frq), time.Duration(pk), time.Duration(sd), str(ast.weights, c.def.weights), "none")
+				if e != nil {
+					continue
+				}
+				at := time.Unix(0, now)
+				differs := ""
+				gcrash, _ := kit.Guard(func() {
+					for q := 0; q < 40 && differs == ""; q++ {
+						tq := at.Add(time.Duration(q) * time.Duration(rep) / 40)
+						if a, b := s.Rate(tq), want.Rate(tq); a != b {
+							differs = fmt.Sprintf("at +%s the stage answers %d, the trigger built from the stage's own options %d", tq.Sub(at), a, b)
+						}
+					}
+				})
+				o.Count("config", "gaussian stage compared with a directly built profile")
+				if differs != "" && !gcrash {
+					o.Fail("config-gaussian-stage-differs", fmt.Sprintf("gaussian stage %d (peak %s, repeat %s, deviation %s): %s; config:\n%s", first+k, time.Duration(pk), time.Duration(rep), time.Duration(sd), differs, y))
+				}
+			}
 		}
 		o.Count("config-outcome", strings.SplitN(out, " ", 2)[0])
 		o.Count("config-stages", kit.I(len(c.stages)))
